@@ -1190,4 +1190,7 @@ func main() {
 		}
 	}
 	o.Hist["ecies/distinct-parameter-sets"] = len(combos)
+
+	// hybrid/subtle directly: every curve GetCurve admits (P-224 included) x every point format (subtle.go)
+	runSubtle(e, seed)
 }
